@@ -35,3 +35,46 @@ package s2
 //@   unrollcalls 8
 //@   requires vcValid(ci) && !ci.IsLeaf() && 0 <= k && k < 4
 //@   ensures [orientation] vcOrientOf(ci.Children()[k].faceIJOrientation()) == vcOrientOf(ci.faceIJOrientation())^posToOrientation[k]
+
+// ---------------------------------------------------------------- the six face cells' lat-lng bounds (constants)
+
+//@ import "math"
+
+//@ spec func vcRectHas(r Rect, lat, lng float64) bool = r.Lat.Contains(lat) && r.Lng.Contains(lng)
+
+// The bound of a face cell is a literal per face. Exact IEEE evaluation: each contains the face centre and the
+// midpoints of the face's four edges (which lie on the literal rectangle's boundary, i.e. inside after the expansion).
+//@ func (c Cell) RectBound() Rect
+//@   fp
+//@   requires c.level == 0 && 0 <= c.face && c.face < 6 && vcRectConsts()
+// poleMinLat is computed at package initialisation as asin(sqrt(1/3)) - eps/2, about 0.6155 (35.26 degrees): only its range is needed
+//@   requires 0.6 < poleMinLat && poleMinLat < 0.62
+//@   ensures [face0] c.face == 0 ==> vcRectHas(result, 0, 0) && vcRectHas(result, 0, math.Pi/4) && vcRectHas(result, 0, -math.Pi/4) && vcRectHas(result, math.Pi/4, 0) && vcRectHas(result, -math.Pi/4, 0)
+//@   ensures [face1] c.face == 1 ==> vcRectHas(result, 0, math.Pi/2) && vcRectHas(result, 0, math.Pi/4) && vcRectHas(result, 0, 3*math.Pi/4) && vcRectHas(result, math.Pi/4, math.Pi/2) && vcRectHas(result, -math.Pi/4, math.Pi/2)
+//@   ensures [face2] c.face == 2 ==> vcRectHas(result, math.Pi/2, 0) && vcRectHas(result, math.Pi/4, 0) && vcRectHas(result, math.Pi/4, math.Pi/2) && vcRectHas(result, math.Pi/4, math.Pi) && vcRectHas(result, math.Pi/4, -math.Pi/2)
+//@   ensures [face3] c.face == 3 ==> vcRectHas(result, 0, math.Pi) && vcRectHas(result, 0, -math.Pi) && vcRectHas(result, 0, 3*math.Pi/4) && vcRectHas(result, 0, -3*math.Pi/4) && vcRectHas(result, math.Pi/4, math.Pi) && vcRectHas(result, -math.Pi/4, math.Pi)
+//@   ensures [face4] c.face == 4 ==> vcRectHas(result, 0, -math.Pi/2) && vcRectHas(result, 0, -math.Pi/4) && vcRectHas(result, 0, -3*math.Pi/4) && vcRectHas(result, math.Pi/4, -math.Pi/2) && vcRectHas(result, -math.Pi/4, -math.Pi/2)
+//@   ensures [face5] c.face == 5 ==> vcRectHas(result, -math.Pi/2, 0) && vcRectHas(result, -math.Pi/4, 0) && vcRectHas(result, -math.Pi/4, math.Pi/2) && vcRectHas(result, -math.Pi/4, math.Pi) && vcRectHas(result, -math.Pi/4, -math.Pi/2)
+
+// ---------------------------------------------------------------- cell-to-cell distance: the closed-cell shortcuts
+
+//@ import "github.com/golang/geo/s1"
+
+//@ func UpdateMinDistance(x, a, b Point, minDist s1.ChordAngle) (s1.ChordAngle, bool)
+//@   assumed "point-to-edge distance (floating point): value not decided"
+
+//@ func UpdateMaxDistance(x, a, b Point, maxDist s1.ChordAngle) (s1.ChordAngle, bool)
+//@   assumed "point-to-edge distance (floating point): value not decided"
+
+//@ func (c Cell) Vertex(k int) Point
+//@   assumed "cell vertex from the uv bound (floating point): value not decided"
+
+// cells are closed: two cells of one face whose uv rectangles meet (even in a corner or along part of an edge)
+// are at distance exactly zero; a cell and the antipodal image of the other meeting likewise gives exactly pi
+//@ func (c Cell) DistanceToCell(target Cell) s1.ChordAngle
+//@   fpcmp
+//@   ensures [touching-is-zero] c.face == target.face && c.uv.Intersects(target.uv) ==> result == 0
+
+//@ func (c Cell) MaxDistanceToCell(target Cell) s1.ChordAngle
+//@   fpcmp
+//@   ensures [antipodal-touching-is-straight] int(c.face) == oppositeFace(int(target.face)) && c.uv.Intersects(r2.Rect{X: target.uv.Y, Y: target.uv.X}) ==> result == s1.StraightChordAngle
